@@ -102,6 +102,17 @@ CHECKS = {
    note="Open known finding C08-reassociation (`a + (b + c)` -> `a + b + c`, pinned by the repository's own test): the enumerator stays out of exactly that "
         "region and SyntaxTrace tolerates exactly Regroup(orig); its witness is replayed every run.",
    technique="TLA+ transcription of printer and parser checked by TLC; every enumerated tree replayed through the real printer/parser and judged by a TLA+ trace spec"),
+ "C09": dict(
+   level="exploration", design="§5 C09, §10",
+   text="Comments.tla models a module as its token sequence with a comment slot before every token, the slot class (production and kind of the following "
+        "token, comment kind), and the order comments must have after the printer's import sorting; CommentsGen.tla enumerates every case (13 templates "
+        "tagged with grammar productions, every single slot in three comment kinds, pairs of slots) and TLC checks the expected order is a permutation that "
+        "only moves import comments. Every case is replayed on the real code: comments inserted textually, parsed, formatted once and twice; the same with a "
+        "comment at every k-th token boundary of every .sam of /repo/tests and /repo/std. CommentsTrace.tla decides: every comment present with the same words "
+        "in the expected order, F(F(x)) = F(x), F(x) parses.",
+   note="Open known findings: 12 slot classes where a comment survives but is hoisted in front of earlier comments, and the line-comment overflow re-flow "
+        "(pinned by prettier tests); each is excused only for its own (failure kind, slot class) and only while its witness still fails.",
+   technique="TLA+ slot/permutation spec; TLC-enumerated cases replayed through the real parser and printer, judged by a TLA+ trace spec"),
  "C13": dict(
    level="exploration", design="§5 C13, §10",
    text="Rewrites.tla models the eight meaning-preserving rewrites as actions on a small program and checks the stutter property (verdict, and behaviour when "
